@@ -57,4 +57,21 @@ theorem toFileMaxAttempts_known :
 /-- the assignment (if any) happens before the operator's `--consumer-opt`s are applied -/
 theorem toFileMaxAttempts_overridable : Nsq.Gen.ToolsToFileFn.toFileMaxAttempts_overridable = true := rfl
 
+/-! ### `--gzip-level` -/
+
+/-- `main()` refuses exactly the levels outside 1..9 … -/
+theorem gzipLevel_accepted_iff (l : Int) :
+    Nsq.Gen.ToolsToFileFn.gzipLevelRejected l = false ↔ (1 ≤ l ∧ l ≤ 9) := by
+  unfold Nsq.Gen.ToolsToFileFn.gzipLevelRejected
+  simp only [Bool.or_eq_false_iff, decide_eq_false_iff_not]
+  omega
+
+/-- … so every accepted level lies inside the range `gzip.NewWriterLevel` accepts (`HuffmanOnly = -2` …
+`BestCompression = 9`): the error that `updateFile`/`Sync` discard (`f.gzipWriter, _ = gzip.NewWriterLevel(…)`)
+is always nil, the writer never a nil pointer -/
+theorem gzipLevel_accepted_is_valid (l : Int) (h : Nsq.Gen.ToolsToFileFn.gzipLevelRejected l = false) :
+    -2 ≤ l ∧ l ≤ 9 := by
+  have := (gzipLevel_accepted_iff l).mp h
+  omega
+
 end Nsq.Tie.ToolsToFileFn
